@@ -114,6 +114,9 @@ def run(rep):
                           "class_fn": cls, "nontrivial": line["form"] != "time_lit" or bool(line["z"]["name"])})
     forms.replay(rep, items, "c11.gen")
     random_trace(rep, zd, 3000 if quick else 200000)
+    # the configuration tables as a model (spec/Config.tla): reported in the evidence, gating nothing here
+    import lint
+    lint.report(rep, (), "config")
 
 
 def random_trace(rep, zd, n):
